@@ -10,6 +10,9 @@
 (*   NodeStop{node, how}   stop requested (cancel) / a worker fails        *)
 (*   NodeRet{node, ms, hung, boundms}  Run returned after ms, or did not   *)
 (*                         return within boundms                           *)
+(*   NodeQuiesce{node, h0, height, incl}  a restarted node after running   *)
+(*                         for a while: chain height at the restart, now,  *)
+(*                         and the DA-included height                      *)
 (***************************************************************************)
 EXTENDS TraceLib
 
@@ -35,12 +38,20 @@ TRet ==
     /\ started' = started \ {e.node} /\ stopping' = stopping \ {e.node}
     /\ gates' = {g \in gates : g[1] # e.node}
     /\ UNCHANGED run
+\* a node restarted after an orderly stop (during which a DA submission was accepted), left running with an
+\* accepting DA layer: the DA-included height must get past every block that existed at the restart (C07)
+TQuiesce ==
+    /\ Is("NodeQuiesce") /\ Adv
+    /\ viol' = viol \o Failed(<<
+          <<"C07.InclusionResumesAfterCleanRestart", e.incl >= e.h0,
+            "every block that existed at the restart is on the DA layer, but the DA-included height stays below them after an orderly stop and restart">> >>, l, run)
+    /\ UNCHANGED <<run, started, gates, stopping>>
 TPanic == Is("Panic") /\ Adv /\ viol' = viol \o Failed(<< <<"C13.Panic", FALSE, "panic inside node code">> >>, l, run)
           /\ UNCHANGED <<run, started, gates, stopping>>
-TOther == /\ l <= N /\ Adv /\ e.ev \notin {"Reset", "NodeRun", "NodeGate", "NodeStop", "NodeRet", "Panic"}
+TOther == /\ l <= N /\ Adv /\ e.ev \notin {"Reset", "NodeRun", "NodeGate", "NodeStop", "NodeRet", "NodeQuiesce", "Panic"}
           /\ UNCHANGED <<run, started, gates, stopping, viol>>
 
-Next == TReset \/ TRun \/ TGate \/ TStop \/ TRet \/ TPanic \/ TOther
+Next == TReset \/ TRun \/ TGate \/ TStop \/ TRet \/ TQuiesce \/ TPanic \/ TOther
 Spec == Init /\ [][Next]_vars
 Finish == (l = N + 1) => ndJsonSerialize("viol.ndjson", viol)
 Consumed == TLCGet("stats").diameter = N + 1
